@@ -260,7 +260,9 @@ pub fn gen_program(r: &mut Rng, stats: &mut Out, filter_rate: usize) -> String {
 /// level. The innermost enclosing filter decides (C08); which one that is only shows when several levels
 /// name the same lint with different variations.
 pub fn gen_nest_program(r: &mut Rng, stats: &mut Out) -> String {
-    let (lint, trigger): (&str, fn(usize) -> String) = match r.below(4) {
+    let (lint, trigger): (&str, fn(usize) -> String) = match r.below(5) {
+        // a diagnostic that starts with the statement's first byte, on a statement that ends in `)`
+        4 => ("undefined_variable", |i| format!("undefined_{i}()")),
         0 => ("unused_variable", |i| format!("local unused_{i} = {i}")),
         1 => ("divide_by_zero", |i| format!("print({i} / 0)")),
         2 => ("undefined_variable", |i| format!("print(undefined_{i})")),
@@ -300,9 +302,14 @@ pub fn gen_nest_program(r: &mut Rng, stats: &mut Out) -> String {
         out.push_str(&format!("{pad}-- selene: {}({lint})\n", r.pick(&variations)));
         stats.bump("nest_level_filter");
     }
-    out.push_str(&format!("{pad}{}\n", trigger(counter)));
+    // statements glued to each other (`f()g()`): the filtered node ends on the very byte the next one starts with
+    let glued = trigger(0).ends_with(')') && r.chance(1, 2);
+    if glued {
+        stats.bump("nest_glued_statements");
+    }
+    out.push_str(&format!("{pad}{}{}", trigger(counter), if glued { "" } else { "\n" }));
     counter += 1;
-    out.push_str(&format!("{pad}{}\n", trigger(counter)));
+    out.push_str(&format!("{}{}\n", if glued { "" } else { pad.as_str() }, trigger(counter)));
     while let Some((pad, close)) = closers.pop() {
         out.push_str(&format!("{pad}{close}\n"));
         counter += 1;
